@@ -13,18 +13,29 @@ class C02(RailsProp):
     rule = ("one run = one generated configuration (Colang 1.0 modes or Colang 2.x guardrails library; 0-3 output rails, generated or shipped) and one 1-5 turn conversation with a seeded "
             "allow/block/rewrite verdict per (rail, LLM text). non-trivial = turns in which an output rail blocked or rewrote, or turns after such a turn; "
             "distinct = distinct (config class, rail kinds, what happened in earlier turns, this turn's verdict vector)")
-    expected_probes = ["output_block", "output_rewrite", "checked_after_output-block"]
+    expected_probes = ["output_block", "output_rewrite", "checked_after_output-block", "checked_after_options-output-off"]
     quick_runs = 420
     thorough_runs = 30000
 
     def generate(self, d, index, tier):
         # more blocks than C01: the interesting histories are those with a block before the last turn
-        return convo.gen_spec(d, verdict_bias=3)
+        sc = convo.gen_spec(d, verdict_bias=3)
+        if sc["colang"] == "1.0" and d.chance(0.35, "per-turn-options"):
+            # requests of one conversation may carry generation options of their own (output rails switched off for one
+            # request, only a log asked for, LLM parameters): what one request asked for must not weaken the checking of
+            # the next one.  A turn whose own options switch the output rails off is not judged.
+            for t, turn in enumerate(sc["convs"][0]["turns"]):
+                o = d.weighted([("none", 4), ("output-off", 3), ("input-off", 1), ("log", 1), ("llm-params", 1)], "topt", t)
+                if o != "none":
+                    turn["options"] = {"output-off": {"rails": {"output": False}}, "input-off": {"rails": {"input": False}}, "log": {"log": {"activated_rails": True}},
+                                       "llm-params": {"llm_params": {"temperature": 0.2}}}[o]
+        return sc
 
     def execute(self, sc):
         out = Outcome()
         tr = Trace(sc.get("run_seed"))
-        world, records = RR.run_conversations(sc, tr=tr)
+        turns = sc["convs"][0]["turns"] if sc.get("convs") else []
+        world, records = RR.run_conversations(sc, tr=tr, options_fn=(lambda c, t: sc["convs"][c]["turns"][t].get("options")) if any(t.get("options") for t in turns) else None)
         cc = cfgclass(sc)
         out.evaluations = max(1, len(records))
         earlier = {}
@@ -34,7 +45,14 @@ class C02(RailsProp):
                 out.inconclusive = "generate raised %s" % type(rec.exc).__name__
                 tr.log("exc", repr(rec.exc))
                 continue
-            RR.check_c02(sc, rec, out, cc, [k for k in e if k.startswith("output") or k.endswith("failure")])
+            opts = sc["convs"][rec.conv]["turns"][rec.t].get("options") or {}
+            if (opts.get("rails") or {}).get("output") is False:
+                out.probe("turn_with_output_rails_switched_off")
+                e.append("options-output-off")
+                continue
+            if "options-output-off" in e:
+                out.probe("checked_after_options-output-off")
+            RR.check_c02(sc, rec, out, cc, [k for k in e if k.startswith("output") or k.endswith("failure") or k.startswith("options")])
             kinds = RR.turn_outcome_kinds(sc, rec)
             okinds = [k for k in kinds if k.startswith("output")]
             if okinds or e:
